@@ -7,6 +7,7 @@ use hbv::dump::*;
 use hbv::outcome::Outcome;
 use hbv::specs::map as m;
 use hbv::specs::table as t;
+use hbv::specs::set as st;
 use proptest::strategy::BoxedStrategy;
 
 fn eval_plain(case: &Case) -> Outcome {
@@ -822,6 +823,71 @@ pub static C15: PropDef = PropDef {
     prop_labels: &[],
 };
 
+// ---------------------------------------------------------------------------------------------
+// C07: HashSet algebra
+
+static C07_WEIGHTS: &[(u16, u32)] = &[
+    (st::INSERT, 12),
+    (st::INSERT_RANGE, 8),
+    (st::REPLACE, 5),
+    (st::REMOVE, 8),
+    (st::GET_OR_INSERT, 4),
+    (st::GET_OR_INSERT_WITH, 6),
+    (st::GET, 3),
+    (st::ENTRY, 6),
+    (st::SWAP, 12),
+    (st::ALGEBRA, 16),
+    (st::PREDICATES, 8),
+    (st::OPERATORS, 8),
+    (st::ASSIGN, 10),
+    (st::EXTEND, 3),
+    (st::RETAIN, 2),
+    (st::EXTRACT_IF, 2),
+    (st::DRAIN, 1),
+    (st::CLEAR, 1),
+    (st::SHRINK_TO_FIT, 2),
+    (st::RESERVE, 1),
+    (st::ITER, 3),
+    (st::FILL_TO_CAPACITY, 2),
+    (st::REMOVE_RUN, 4),
+    (st::CLONE, 2),
+    (st::MIRROR, 4),
+    (st::REBUILD, 1),
+];
+
+fn c07_strategy(tier: Tier) -> BoxedStrategy<Case> {
+    set_case_strategy(SetGen {
+        prop: 7,
+        weights: C07_WEIGHTS,
+        max_ops: if tier == Tier::Quick { 100 } else { 300 },
+        generic_pct: 20,
+        plain_pct: 30,
+    })
+}
+
+fn c07_nontrivial(_c: &Case, o: &Outcome) -> bool {
+    o.labels & L_X2 != 0
+}
+
+pub static C07: PropDef = PropDef {
+    id: "C07",
+    rule: "two HashSets with independent histories, capacities, tombstones and differently seeded hash plans over \
+           one universe; union / intersection / difference / symmetric_difference in both directions (next, fold, \
+           clone half-way, size_hint bounds at every step), predicates and == in both directions, operator and \
+           assigning forms, insert/replace/take/get_or_insert/get_or_insert_with (incl. a closure returning a \
+           non-equivalent value, which must panic)/remove/entry; non-trivial = a binary operation was evaluated on \
+           two non-empty sets of which neither is a subset of the other",
+    level: "exploration",
+    cases_quick: 24_000,
+    cases_thorough: 400_000,
+    strategy: c07_strategy,
+    eval: eval_plain,
+    nontrivial: c07_nontrivial,
+    specs: hbv::specs::SET_OPS,
+    assumptions: &["mathematical sets are std BTreeSet<u32> over element ids; iterator outputs are compared as sorted multisets so duplicates are visible"],
+    prop_labels: &[(L_X1, "get_or_insert_with_refused_or_sub_assign_remove_loop"), (L_X2, "binary_op_on_incomparable_non_empty_sets"), (L_X3, "binary_op_on_equal_sized_sets")],
+};
+
 pub fn all() -> Vec<&'static PropDef> {
-    vec![&C01, &C03, &C04, &C05, &C06, &C09, &C10, &C11, &C13, &C14, &C15]
+    vec![&C01, &C03, &C04, &C05, &C06, &C07, &C09, &C10, &C11, &C13, &C14, &C15]
 }
